@@ -8,9 +8,13 @@ for d in ("Model", "Float", "Real", "Spec", "Generated", "Props"):
     Q += ["-Q", os.path.join(COQ, d), "OAS"]
 
 
+SCOPE = "Open Scope R_scope."
+PRELUDE = "From Coq Require Import Reals ZArith Lra Lia Arith Bool List String.\nFrom Coquelicot Require Import Coquelicot."
+
+
 def gen(outfile, header_comment, imports, items):
     """items: list of (theorem_name, lemma, comment)"""
-    src = "From Coq Require Import Reals ZArith Lra Lia Arith Bool List.\nFrom OAS Require Import %s.\nOpen Scope R_scope.\nSet Printing Width 118.\n" % imports
+    src = "%s\nFrom OAS Require Import %s.\n%s\nSet Printing Width 118.\n" % (PRELUDE, imports, SCOPE)
     for _, lem, _ in items:
         src += "Check %s.\n" % lem
     tmp = "/tmp/genprops_%d.v" % os.getpid()
@@ -25,7 +29,7 @@ def gen(outfile, header_comment, imports, items):
         m = re.match(r"([A-Za-z_0-9']+)\n     : (.*)", b, re.S)
         if m:
             stmts[m.group(1)] = m.group(2).rstrip()
-    body = "(* %s *)\nFrom Coq Require Import Reals ZArith Lra Lia Arith Bool List.\nFrom Coquelicot Require Import Coquelicot.\nFrom OAS Require Import %s.\nOpen Scope R_scope.\n\n" % (header_comment, imports)
+    body = "(* %s *)\n%s\nFrom OAS Require Import %s.\n%s\n\n" % (header_comment, PRELUDE, imports, SCOPE)
     for name, lem, comment in items:
         st = stmts[lem]
         st = "\n".join("  " + l[7:] if l.startswith("       ") else "  " + l for l in st.split("\n"))
@@ -72,8 +76,35 @@ def c12():
     gen("C12.v", "C12 - the coupled aerostructural state is a consistent, path-independent fixed point.  Property theorems only (Real/CouplingProofs.v)", imports, items)
 
 
+def c20():
+    imports = ("SetupKeys Setup SetupProofs")
+    items = [
+        ("C20_even_num_y_rejected", "even_num_y_rejected", "generate_mesh"),
+        ("C20_unknown_wing_type_rejected", "unknown_wing_type_rejected", None),
+        ("C20_valid_mesh_request_accepted", "valid_mesh_request_accepted", None),
+        ("C20_unknown_mesh_key_warns", "unknown_mesh_key_warns", "over the key list GENERATED from get_default_geo_dict"),
+        ("C20_known_mesh_keys_do_not_warn", "known_mesh_keys_do_not_warn", None),
+        ("C20_missing_important_key_warns", "missing_important_key_warns", None),
+        ("C20_unknown_surface_key_warns", "unknown_surface_key_warns", "over the key list GENERATED from check_surface_dict_keys"),
+        ("C20_documented_surface_keys_do_not_warn", "documented_surface_keys_do_not_warn", None),
+        ("C20_ground_effect_without_symmetry_rejected", "ground_effect_without_symmetry_rejected", "for any list of surfaces"),
+        ("C20_ground_effect_with_symmetry_accepted", "ground_effect_with_symmetry_accepted", None),
+        ("C20_unknown_structural_model_rejected", "unknown_structural_model_rejected", None),
+        ("C20_only_one_wingbox_thickness_rejected", "only_one_wingbox_thickness_rejected", None),
+        ("C20_valid_structural_models_accepted", "valid_structural_models_accepted", None),
+        ("C20_wrong_length_section_lists_rejected", "wrong_length_section_lists_rejected", "multi-section surfaces, any number of sections"),
+        ("C20_right_length_section_lists_accepted", "right_length_section_lists_accepted", None),
+        ("C20_asymmetric_sections_need_root", "asymmetric_sections_need_root", None),
+    ]
+    gen("C20.v", "C20 - invalid set-ups are rejected loudly; valid ones are accepted; unknown keys warn.  Property theorems only (Real/SetupProofs.v over Model/Setup.v and the generated key lists)", imports, items)
+
+
 if __name__ == "__main__":
     which = sys.argv[1]
+    if which == "C20":
+        SCOPE = "Open Scope string_scope."
+        PRELUDE = "From Coq Require Import ZArith Lia Arith Bool List String.\nImport ListNotations."
+        c20(); sys.exit(0)
     if which == "C12":
         c12(); sys.exit(0)
     if which == "C02":
